@@ -470,6 +470,9 @@ func (c *HTTPClient) discover() error {
 			c.topology.Update(primary, secondaries...)
 			break
 		}
+		// the endpoint could not tell us the topology (e.g. it answered 4xx):
+		// do not ask it again in this round, otherwise the scan never ends
+		e.MarkAsDead()
 	}
 
 	return nil
